@@ -556,6 +556,30 @@ func checkC16(c *an.Ctx) {
 			}
 		})
 	}
+	// … the same for what the loader reaches in other packages of the module (a hand-written merge of raw
+	// documents in pkg/utils that switches on the container types is format-dependent in the same way)
+	var loaderRoots []*ssa.Function
+	for _, fn := range p.Funcs {
+		if inPkgs("internal/config")(fn) && fn.Signature.Recv() != nil && an.TypeIs(fn.Signature.Recv().Type(), "internal/config", "Loader") {
+			loaderRoots = append(loaderRoots, fn)
+		}
+	}
+	for fn := range p.Reach(loaderRoots, func(e an.CallEdge) bool { return e.Kind != an.EdgeGo && an.InModule(e.Callee) }) {
+		if fn.Blocks == nil || inPkgs("internal/config")(fn) {
+			continue
+		}
+		an.EachInstr(fn, func(in ssa.Instruction) {
+			x, ok := in.(*ssa.TypeAssert)
+			if !ok {
+				return
+			}
+			t := x.AssertedType.String()
+			if t == "map[interface{}]interface{}" || strings.HasPrefix(t, "encoding/json.") || strings.Contains(t, "go-toml") || strings.Contains(t, "yaml.v2") {
+				clean = false
+				c.Bad("C16.3", an.Short(fn)+":assert("+t+")", x.Pos(), "%s (reached from the loader) distinguishes the decoder-specific dynamic type %s: only one format produces it, so the formats are treated differently", an.Short(fn), t)
+			}
+		})
+	}
 	// decode hooks written in the module see the decoder's dynamic types (yaml: int, toml: int64, json: float64):
 	// a hook that turns the raw value into text by its dynamic type makes the three formats load differently
 	for _, fn := range p.Funcs {
